@@ -293,6 +293,8 @@ pub fn write_replay(cfg: &CheckCfg, spec: &WorkerSpec, tape: &[u32], prop: &str,
         "property": prop,
         "invariant": invariant,
         "seed": cfg.seed,
+        // the seed of this run (what an empty tape is re-run from), as a string: it does not fit a double
+        "run_seed": spec.seed.to_string(),
         "run_idx": spec.run_idx,
         "mode": spec.mode,
         "params": spec.params,
@@ -329,7 +331,7 @@ pub fn replay(path: &str) -> i32 {
     let tape: Vec<u32> = serde_json::from_value(j["tape"].clone()).unwrap_or_default();
     let params: BTreeMap<String, Value> = serde_json::from_value(j["params"].clone()).unwrap_or_default();
     let out = scratch_dir(&prop).join(format!("replay_{}.json", std::process::id()));
-    let spec = WorkerSpec { property: prop.clone(), mode: j["mode"].as_str().unwrap().into(), seed: j["seed"].as_u64().unwrap_or(0), run_idx: j["run_idx"].as_u64().unwrap_or(0), program, bin: built.bin.to_string_lossy().into(), src_file: built.src_file.clone(), tape: if tape.is_empty() { None } else { Some(tape) }, out: out.to_string_lossy().into(), params };
+    let spec = WorkerSpec { property: prop.clone(), mode: j["mode"].as_str().unwrap().into(), seed: j["run_seed"].as_str().and_then(|x| x.parse().ok()).unwrap_or_else(|| j["seed"].as_u64().unwrap_or(0)), run_idx: j["run_idx"].as_u64().unwrap_or(0), program, bin: built.bin.to_string_lossy().into(), src_file: built.src_file.clone(), tape: if tape.is_empty() { None } else { Some(tape) }, out: out.to_string_lossy().into(), params };
     let r = run_worker(&spec, Duration::from_secs(120));
     for l in &r.log {
         println!("{l}");
@@ -496,7 +498,7 @@ pub fn run_check(cfg: CheckCfg, specs: Vec<WorkerSpec>, corpus_info: Value) -> i
     {
         // per-run summary for debugging (scratch, not evidence)
         let rows: Vec<Value> = results.iter().map(|r| json!({"run": r.spec.run_idx, "seed": r.spec.seed, "verdict": r.res.verdict, "detail": r.res.detail, "violations": r.res.violations.iter().map(|v| format!("{}:{}", v.property, v.invariant)).collect::<Vec<_>>(), "ops": r.res.ops, "wall_ms": r.wall_ms})).collect();
-        let _ = std::fs::write(scratch_dir(&prop).join("summary.json"), serde_json::to_string_pretty(&rows).unwrap());
+        let _ = std::fs::write(scratch_dir(&prop).join(format!("summary_{}.json", results.first().map(|r| r.spec.mode.clone()).unwrap_or_default())), serde_json::to_string_pretty(&rows).unwrap());
     }
     let known = load_known();
     let mut exit = 0;
@@ -522,9 +524,17 @@ pub fn run_check(cfg: CheckCfg, specs: Vec<WorkerSpec>, corpus_info: Value) -> i
         let &i = idxs.iter().min_by_key(|&&i| results[i].res.tape.len()).unwrap();
         let rr = &results[i];
         let base = rr.spec.clone();
-        let tape0 = rr.res.tape.clone();
+        let mut tape0 = rr.res.tape.clone();
         // confirm by replay in a fresh worker, then minimise
-        match reproduces(&base, &tape0, &prop, inv, timeout, "_c") {
+        let mut confirmed = reproduces(&base, &tape0, &prop, inv, timeout, "_c");
+        if confirmed.is_none() && inv == "worker_crash" && !tape0.is_empty() {
+            // a worker that died reports the tape as it stood before the operation that killed
+            // it: the draws of that operation are missing, so the tape replays a different
+            // operation. The same run from its seed is the faithful repetition.
+            tape0 = vec![];
+            confirmed = reproduces(&base, &tape0, &prop, inv, timeout, "_s");
+        }
+        match confirmed {
             None if inv == "worker_timeout" => {
                 // the wall-clock backstop fired (machine load) but the same seed completes
                 // without complaint when re-run: recorded, not an alarm
